@@ -446,9 +446,16 @@ def analyse_mapfold(ck, fn, struct, blocked):
 
     def analyse_leaf(sts):
         accs, late_init, rest, ret = {}, {}, [], []
-        for s_ in fuse_while(sts):
+        carried = set()         # locals that take over an accumulator by copy (`ValueType_ r(partial);`): same accumulator from there on
+        fsts = fuse_while(sts)
+        for pos_, s_ in enumerate(fsts):
             if s_.get("k") == "Decl":
                 for v in s_["vars"]:
+                    i0_ = strip(v["init"]) if v.get("init") is not None else None
+                    if i0_ is not None and i0_.get("k") == "Ref" and i0_.get("d") in accs and v["d"] in written_locals and \
+                            not any(y.get("k") == "Ref" and y.get("d") == i0_["d"] for later in fsts[pos_ + 1:] for y in walk(later)):
+                        carried.add(v["d"])
+                        continue
                     if v["d"] in written_locals or v.get("init") is None:
                         accs[v["d"]] = v        # locals that are never written again are temporaries / aliases
             elif s_.get("k") == "Assign" and s_.get("op") == "=" and strip(s_["lhs"]).get("k") == "Ref" and strip(s_["lhs"]).get("d") in accs \
@@ -458,7 +465,7 @@ def analyse_mapfold(ck, fn, struct, blocked):
                 ret.append(s_)
             else:
                 rest.append(s_)
-        ctx.acc = set(accs)
+        ctx.acc = set(accs) | carried
         ctx.ptrs, ctx.down = {}, set()
         lv = []
         try:
@@ -506,7 +513,7 @@ def analyse_mapfold(ck, fn, struct, blocked):
                 final = "sqrt"      # per-component finalisation after the sum is complete (inside or behind the component loop)
             else:
                 raise Unknown("statement `%s` outside the size loop" % render(fs)[:80])
-        return {"updates": updates, "line": updates[0][2], "final": final, "accs": accs, "late": late_init, "ret": ret}
+        return {"updates": updates, "line": updates[0][2], "final": final, "accs": accs, "late": late_init, "ret": ret, "carried": carried}
 
     def compose(info, pat):
         """net effect of the leaf on element i under an aliasing pattern -> (target, new value)"""
@@ -668,7 +675,7 @@ def analyse_mapfold(ck, fn, struct, blocked):
                 zero = is_zero(init) or (init.get("k") in ("Construct", "TempObj") and len(init.get("a", [])) == 1 and is_zero(init["a"][0]))
                 if len(ret) != 1:
                     raise Unknown("%d return statements" % len(ret))
-                ctx.acc = set(accs)
+                ctx.acc = set(accs) | info.get("carried", set())
                 ctx.i = ctx.j = None
                 rv = strip(ret[0].get("e"))
                 if rv.get("k") == "Ref" and rv.get("d") in ctx.acc:
